@@ -688,7 +688,8 @@ def compute_rspca(
         robust=robust,
         compute=compute,
     )
-    # rescale eigen values
-    eigen_values *= (n_components + oversample - 1) / (m - 1)
+    # rescale eigen values: `compute_spca` normalised them by the number of rows of the
+    # compressed matrix, which is smaller than n_components + oversample for small data
+    eigen_values *= (Xcompressed.shape[0] - 1) / (m - 1)
 
     return B, A, eigen_values
